@@ -4,7 +4,8 @@ import Scion.Util.NetAes
 import Scion.Model.Net
 /-! Driver for the network model (engine `net`, properties C02 C03 C04 C10 C22): replays every real
 router invocation (`rt`), slow-path reply construction (`scmp`) and path reversal at a host (`rev`)
-through `Scion.Net.routerStep` / `scmpPrepare` / `reverseCursor`, with the MAC parameter
+through `Scion.Net.routerStep` / `scmpPrepare` / `reverseCursor`, and every combined path through
+`pathOf` / `pathIfaces` (`po`), with the MAC parameter
 instantiated by AES-CMAC.  Parsing and printing only. -/
 namespace Driver.Net
 open Scion.Net Scion.Util
@@ -123,6 +124,46 @@ def pRev : P String := do
   | none => pure "none"
   | some c => pure s!"ok {showCursor (reverseCursor c)}"
 
+def pOptNat : P (Option Nat) := do
+  let w ← word
+  if w == "-" then pure none else
+  match w.toNat? with
+  | some n => pure (some n)
+  | none => failure
+
+def pMac : P Nat := do
+  match unhex (← word) with
+  | some bs => pure (beNat bs)
+  | none => failure
+
+def pPeerE : P PeerE := do
+  let i ← nat; let e ← nat; let x ← nat; let m ← pMac; let pa ← nat; let pi ← nat
+  pure ⟨⟨i, e, x, m⟩, pa, pi⟩
+
+def pASE : P ASE := do
+  let ia ← nat; let i ← nat; let e ← nat; let x ← nat; let m ← pMac
+  let np ← nat
+  let ps ← rep pPeerE np
+  pure ⟨ia, ⟨i, e, x, m⟩, ps⟩
+
+def pEdge : P Edge := do
+  let down ← bool; let core ← bool; let sc ← nat; let peer ← pOptNat
+  let s0 ← nat; let ts ← nat
+  let n ← nat
+  let es ← rep pASE n
+  pure ⟨⟨s0, ts, es⟩, core, down, sc, peer⟩
+
+/-- `pathSolution.Path`: raw path and metadata interfaces for a list of edges -/
+def pPo : P String := do
+  let n ← nat
+  let edges ← rep pEdge n
+  match pathOf edges with
+  | none => pure "none"
+  | some c =>
+    let ifs := pathIfaces edges
+    let ifsS := String.join (ifs.map fun (a, i) => s!" {a} {i}")
+    pure s!"ok {showCursor c} | {ifs.length}{ifsS}"
+
 def runP (p : P String) (ws : List String) : String :=
   match p.run ws with
   | some (s, []) => s
@@ -132,6 +173,7 @@ def handle : List String → String
   | "rt" :: ws => runP pRt ws
   | "scmp" :: ws => runP pScmp ws
   | "rev" :: ws => runP pRev ws
+  | "po" :: ws => runP pPo ws
   | _ => "bad-op"
 
 end Driver.Net
